@@ -24,6 +24,18 @@ CHECKS = {
                 technique="abstract interpretation of every DcsCommand impl on a symbolic 16-byte buffer; per-bit polynomial equality with the MIPI opcode / big-endian table",
                 text="For all 18 DcsCommand impls: opcode, returned length, every written parameter byte (all 2^16 values per field at once) and every untouched buffer cell are compared with the MIPI DCS table; write_command::<_, T> is interpreted for each T and must emit exactly one send_command with that opcode and the first n bytes; write_raw must forward its arguments unchanged.",
                 note="Trusted: rustc MIR, interpreter, summaries of u16::to_be_bytes / copy_from_slice / slice indexing, the MIPI opcode table."),
+    "C15": dict(level="proof", design="5/C15",
+                technique="constant propagation of MIR over the finite enum domains against a D4 matrix oracle; path-wise interval/congruence analysis of try_from_degree",
+                text="(a) rotate / flip_horizontal / flip_vertical / MemoryMapping::from_orientation are folded for all 8 orientations x 4 rotations and must satisfy the dihedral-group identities of the property (matrix oracle), with the unreachable!() arm unreachable. (b) try_from_degree is interpreted path-wise on a symbolic i32: matched value = angle or angle.rem_euclid(M) with 360|M, each Ok arm returns the rotation of exactly the matched multiple of 90, the default arm rejects no multiple of 90 in the value's range, nothing overflows: total and correct for all 2^32 angles.",
+                note="Trusted: rustc MIR, interpreter, rem_euclid contract. The decision predicates of each path are evaluated over the finite range (<=360 values) of the reduced angle."),
+    "C16": dict(level="proof", design="5/C16",
+                technique="abstract interpretation with overflow obligations discharged by interval + bounded Farkas entailment; polynomial identity t+v+b == rows",
+                text="set_vertical_scroll_region is interpreted for all (top,bottom) in u16^2 and any framebuffer height (generic model): every overflow/underflow assertion is discharged, the single SetScrollArea(t,v,b) satisfies t+v+b == rows identically and passes top/bottom through whenever their sum fits; set_vertical_scroll_offset sends SetScrollStart(offset) unchanged. Serialisation of both commands is C18.",
+                note="Trusted: rustc MIR, interpreter, C18. Found and fixed on the pinned tree: u16 overflow of top+bottom (commit 538c7be)."),
+    "C10": dict(level="proof", design="5/C10",
+                technique="inductive invariant: state-update analysis of set_orientation by abstract interpretation (sent value / stored fields as polynomials), reader and writer inventories over all Display methods",
+                text="set_orientation must send SetAddressMode(with_orientation(old, o)), store that value as the cached address mode and store o as options.orientation on success (not on error); orientation() and size() are functions of the stored orientation; every other method leaves options and the cached address mode unchanged. With C14 this makes the state after any sequence equal to that of a fresh build with the last orientation, colour/refresh bits preserved.",
+                note="Trusted: rustc MIR, interpreter, C14, C18; subsequent drawing depends on the Display state only (C01/C02/C08). Found and fixed: options.orientation was never stored (commit 8b20831)."),
 }
 
 NOT_APPLICABLE = {
